@@ -638,4 +638,18 @@ example : ∃ o, run (exRun true false ["c1", "c1,c2"]) = .ok o ∧ o.parts.map 
 example : ∃ f vars s, chromStats f vars = some s ∧ (bigOf s.blocks).isEmpty = false := ⟨_, _, _, ex_stats, rfl⟩
 example : ∃ f o recs vars, readChrom f o recs = .ok vars ∧ vars ≠ [] := ⟨_, _, _, _, ex_read, by simp [exVars]⟩
 
+/-- **nonoverlap_sort_independent**: for a chromosome the reader accepted, `get_nonoverlapping_blocks` returns the same pieces
+with *any* routine that sorts the queue by leftmost position (the model uses a stable ascending merge sort; the code uses
+`sorted(..., reverse=True)` and pops from the end): positions are strictly increasing (`reader_spec`), so the blocks are
+pairwise disjoint and two blocks of the queue never tie. -/
+theorem nonoverlap_sort_independent (sort : List Block → List Block) (hsort : IsSort sort) (f : Flags) (onlySnvs : Bool)
+    (recs : List Rec) (vars : List Var) (h : readChrom f onlySnvs recs = .ok vars) :
+    nonoverlapG sort ((blocksOf (phasedOf f vars)).map (·.2)) = nonoverlap ((blocksOf (phasedOf f vars)).map (·.2)) := by
+  apply nonoverlapG_eq sort hsort
+  apply blocksOf_disj
+  have hlt := ((reader_spec f onlySnvs recs vars h).2).sublist (positions_sublist f vars)
+  exact hlt.imp (fun hab => Nat.ne_of_lt hab)
+
+example : IsSort sortBlocks := fun l => ⟨sortBlocks_perm l, sortBlocks_sorted l⟩
+
 end WhVerif.Props.C12
